@@ -124,7 +124,7 @@ pub fn run(
 
         if iter_counter % 256 == 0 {
             #[cfg(aquatic_verif)]
-            aquatic_common::verif::count("udp.time_refreshed");
+            aquatic_common::verif::count_per_thread("udp.time_refreshed");
 
             shared.validator.update_elapsed();
 
